@@ -182,4 +182,55 @@ theorem nversion_compare_totalPre : TotalPre NVersion.compare := by
   rw [this]
   exact keyCmp_totalPre (prodCmp_totalPre strCmp_totalPre (lexCmp_totalPre intCmp_totalPre)) _
 
+/-! ### literal alternations -/
+
+theorem isPrefix_iff : ∀ (alt l : Str), isPrefix alt l = true ↔ ∃ suf, l = alt ++ suf
+  | [], l => by simp [isPrefix]
+  | x :: xs, [] => by simp [isPrefix]
+  | x :: xs, y :: ys => by
+    simp only [isPrefix, Bool.and_eq_true, decide_eq_true_eq, isPrefix_iff xs ys, List.cons_append,
+      List.cons.injEq]
+    constructor
+    · rintro ⟨rfl, suf, rfl⟩; exact ⟨suf, rfl, rfl⟩
+    · rintro ⟨suf, rfl, rfl⟩; exact ⟨rfl, suf, rfl⟩
+
+/-- `isInfix alt a` is `strings.Contains(a, alt)`. -/
+theorem isInfix_iff (alt : Str) : ∀ a : Str, isInfix alt a = true ↔ ∃ pre suf, a = pre ++ alt ++ suf
+  | [] => by
+    simp only [isInfix, List.isEmpty_iff]
+    constructor
+    · rintro rfl; exact ⟨[], [], rfl⟩
+    · rintro ⟨pre, suf, h⟩
+      have := congrArg List.length h
+      simp at this
+      exact List.eq_nil_of_length_eq_zero (by omega)
+  | y :: ys => by
+    simp only [isInfix, Bool.or_eq_true, isPrefix_iff, isInfix_iff alt ys]
+    constructor
+    · rintro (⟨suf, h⟩ | ⟨pre, suf, h⟩)
+      · exact ⟨[], suf, by simpa using h⟩
+      · exact ⟨y :: pre, suf, by simp [h]⟩
+    · rintro ⟨pre, suf, h⟩
+      cases pre with
+      | nil => left; exact ⟨suf, by simpa using h⟩
+      | cons z zs =>
+        right
+        simp only [List.cons_append, List.cons.injEq] at h
+        exact ⟨zs, suf, h.2⟩
+
+/-! ### the controller over several records -/
+
+theorem filterAll_ok : ∀ (outs : List Out) (n : Nat), (∀ o ∈ outs, ∃ b, o = .ok b) →
+    filterAll outs n = .count (n + outs.countP (· = .ok true))
+  | [], n, _ => by simp [filterAll]
+  | o :: r, n, h => by
+    obtain ⟨b, rfl⟩ := h o (by simp)
+    have hr : ∀ o ∈ r, ∃ b, o = .ok b := fun o ho => h o (by simp [ho])
+    cases b with
+    | true =>
+      simp only [filterAll, filterAll_ok r (n + 1) hr, List.countP_cons_of_pos, decide_true]
+      congr 1; omega
+    | false =>
+      simp [filterAll, filterAll_ok r n hr]
+
 end ClairModel.Matchers
